@@ -301,3 +301,38 @@ Lemma parse_printable d : printable d -> - P <= dexp d ->
 Proof.
   intros [Hwf Hok] He. exists (reparsed d). split; [apply parse_to_string_gen; assumption | apply reparsed_units; exact He].
 Qed.
+
+(* a positive amount of fewer than 10^100 units prints and parses back (every amount a Take can
+   release: at most 2^256 - 1 units) *)
+Lemma printable_of_units d : in_ok d -> 0 < U d < 10 ^ 100 -> printable d.
+Proof.
+  intros (Hc & Hn & He) [Hpos Hlt]. unfold U, units, dint in Hpos, Hlt.
+  assert (Hneg : dneg d = false).
+  { destruct (dneg d); [|reflexivity]. rewrite (Hn eq_refl) in Hpos. cbn in Hpos. lia. }
+  rewrite Hneg in Hpos, Hlt.
+  assert (Hp : 0 < 10 ^ (dexp d + P)) by (apply pow10_gt0; lia).
+  assert (Hc1 : 0 < dcoef d) by nia.
+  assert (Hclt : dcoef d < 10 ^ 100) by nia.
+  assert (He2 : dexp d + P < 100).
+  { destruct (Z_lt_le_dec (dexp d + P) 100) as [|Hge]; [assumption|]. exfalso.
+    assert (10 ^ 100 <= 10 ^ (dexp d + P)) by (apply pow10_le; lia). nia. }
+  assert (Hnd : num_digits (dcoef d) <= 100) by (apply num_digits_le; lia).
+  pose proof (num_digits_ge1 (dcoef d)) as Hge1.
+  clear Hpos Hlt Hclt Hp. split; [lia|]. unfold reparse_ok, min_exponent, max_exponent, P in *.
+  destruct (dexp d <=? 0) eqn:E; [apply Z.leb_le in E; lia|]. apply Z.leb_gt in E.
+  rewrite num_digits_mul_pow10 by lia. lia.
+Qed.
+
+Lemma sdk_int_bound s v : parse_sdk_int' s = Some v -> 0 < v -> v < 10 ^ 100.
+Proof.
+  unfold parse_sdk_int'. intros H Hv.
+  destruct (match s with nil => _ | c :: r => _ end) as [neg body].
+  destruct body as [|f rest]; [discriminate|].
+  destruct (forallb is_digit (f :: rest)) eqn:Ed; [|discriminate].
+  destruct (Z.log2 _ <? 256) eqn:El; [|discriminate]. apply Z.ltb_lt in El.
+  pose proof (dec_digits_val_nonneg _ Ed) as Hw0.
+  set (w := dec_digits_val (f :: rest)) in *. clearbody w.
+  assert (Hw : v = w) by (destruct neg; inversion H; lia). subst w.
+  apply Z.log2_lt_pow2 in El; [|exact Hv].
+  assert (2 ^ 256 < 10 ^ 100) by (vm_compute; reflexivity). lia.
+Qed.
